@@ -21,7 +21,7 @@ package proc
 
 //@ func (*listener).addConn
 //@   prop C09 C20
-//@   requires l != nil && l.cfg != nil && l.stats != nil
+//@   requires l != nil && l.cfg != nil && l.stats != nil && distinctstats(l.stats)
 //@   modifies mapof(l.conns), statval
 //@   ensures @admit-iff-registry-open-and-under-limit result == (old(l.conns) != nil && !(l.cfg.ConnectionLimit != 0 && uint32(old(len(l.conns))) >= l.cfg.ConnectionLimit))
 //@   ensures @admitted-is-registered result ==> has(l.conns, conn) && len(l.conns) <= old(len(l.conns)) + 1
@@ -30,7 +30,7 @@ package proc
 
 //@ func (*listener).removeConn
 //@   prop C09 C20
-//@   requires l != nil && l.stats != nil && (l.conns == nil || has(l.conns, conn))
+//@   requires l != nil && l.stats != nil && distinctstats(l.stats) && (l.conns == nil || has(l.conns, conn))
 //@   modifies mapof(l.conns), statval
 //@   ensures @admitted-connection-is-destroyed-exactly-once statval[l.stats.CxDestroyTotal] == uint64(old(statval[l.stats.CxDestroyTotal]) + 1) && statval[l.stats.CxActive] == uint64(old(statval[l.stats.CxActive]) - 1) && statval[l.stats.CxTotal] == old(statval[l.stats.CxTotal])
 //@   ensures @unregistered l.conns == nil || !has(l.conns, conn)
